@@ -52,21 +52,36 @@ Proof.
 Qed.
 
 (* ---------------------------------------------------------------- the loop *)
-Lemma prim_loop_ok : forall g start, NoDup (keys g) ->
-  forall fuel s, PI g start s -> length (p_heap s) + rem g (p_in s) < fuel ->
-  exists s', prim_loop fuel g (length (all_nodes g)) s = Some s' /\ PI g start s' /\
+Definition skip_state (s : pstate) (heap' : list hentry) : pstate :=
+  {| p_in := p_in s; p_acc := p_acc s; p_tot := p_tot s; p_counter := p_counter s;
+     p_heap := heap'; p_iters := S (p_iters s); p_evals := p_evals s |}.
+Definition take_state (g : graph) (s : pstate) (h : hentry) (heap' : list hentry) : pstate :=
+  push_all true (h_v h) (lookup g (h_v h))
+    {| p_in := h_v h :: p_in s; p_acc := p_acc s ++ [(h_u h, h_v h, h_w h)];
+       p_tot := (p_tot s + h_w h)%Z; p_counter := p_counter s; p_heap := heap';
+       p_iters := S (p_iters s); p_evals := p_evals s |}.
+
+(* the loop lemma, generic in an additional invariant Q that the two kinds of steps preserve *)
+Lemma prim_loop_ok_gen : forall g start (Q : pstate -> Prop), NoDup (keys g) ->
+  (forall s h heap', PI g start s -> Q s -> p_heap s = h :: heap' -> mem (h_v h) (p_in s) = true ->
+     Q (skip_state s heap')) ->
+  (forall s h heap', PI g start s -> Q s -> p_heap s = h :: heap' -> mem (h_v h) (p_in s) = false ->
+     Q (take_state g s h heap')) ->
+  forall fuel s, PI g start s -> Q s -> length (p_heap s) + rem g (p_in s) < fuel ->
+  exists s', prim_loop fuel g (length (all_nodes g)) s = Some s' /\ PI g start s' /\ Q s' /\
              (p_heap s' = [] \/ length (all_nodes g) <= length (p_in s')).
 Proof.
-  intros g start Hnd. induction fuel as [|f IH]; intros s HP Hm; [lia|].
+  intros g start Q Hnd Qskip Qtake. induction fuel as [|f IH]; intros s HP HQ Hm; [lia|].
   cbn [prim_loop]. destruct (p_heap s) as [|h heap'] eqn:Eh.
-  - exists s. split; [reflexivity|]. split; [exact HP|left; exact Eh].
+  - exists s. split; [reflexivity|]. split; [exact HP|]. split; [exact HQ|left; exact Eh].
   - destruct (length (p_in s) <? length (all_nodes g)) eqn:El.
-    2:{ exists s. split; [reflexivity|]. split; [exact HP|right; apply Nat.ltb_ge; exact El]. }
+    2:{ exists s. split; [reflexivity|]. split; [exact HP|]. split; [exact HQ|right; apply Nat.ltb_ge; exact El]. }
+    pose proof HP as HP0.
     destruct HP as (P1 & P2 & P3 & P4 & P5 & P6 & P7 & P8 & P9 & P10 & P11 & P12).
     rewrite Eh in P8, P11. cbn [length] in Hm.
     destruct (mem (h_v h) (p_in s)) eqn:Em.
     + (* popped entry leads into the tree: skip *)
-      apply IH; [|cbn [p_heap p_in]; lia].
+      apply IH; [|exact (Qskip s h heap' HP0 HQ Eh Em)|cbn [p_heap p_in]; lia].
       unfold PI. cbn [p_in p_acc p_tot p_heap].
       split; [exact P1|]. split; [exact P2|]. split; [exact P3|]. split; [exact P4|]. split; [exact P5|].
       split; [exact P6|]. split; [exact P7|]. split; [|split; [exact P9|split; [exact P10|split; [|exact P12]]]].
@@ -76,6 +91,7 @@ Proof.
         -- left. subst h. cbn in Em. apply mem_In. exact Em.
         -- right. exists c. exact K.
     + (* new node *)
+      pose proof (Qtake s h heap' HP0 HQ Eh Em) as HQ'.
       apply mem_false in Em.
       destruct (P8 h (or_introl eq_refl)) as [Harc Hu].
       set (e := (h_u h, h_v h, h_w h)) in *.
@@ -84,7 +100,7 @@ Proof.
                     p_iters := S (p_iters s); p_evals := p_evals s |}).
       destruct (push_all_spec true (h_v h) (lookup g (h_v h)) s2) as (E1 & E2 & E3 & H4 & H5 & H6 & H7).
       cbv zeta in *.
-      apply IH.
+      apply IH; [|exact HQ'|].
       * unfold PI. rewrite E1, E2, E3. cbn [s2 p_in p_acc p_tot p_heap] in *.
         assert (Hne : ~ connects (p_acc s) (eu e) (ev e)).
         { intros K. apply joined_endpoints in K. destruct K as [K|[_ K]].
@@ -118,6 +134,17 @@ Proof.
            apply (reach_step g start (h_u h) (h_v h) (h_w h)); [apply P12; exact Hu|exact Harc].
       * rewrite E1. cbn [s2 p_in p_heap] in *.
         pose proof (rem_step g (h_v h) (p_in s) (proj2 (mem_false _ _) Em)). lia.
+Qed.
+
+Lemma prim_loop_ok : forall g start, NoDup (keys g) ->
+  forall fuel s, PI g start s -> length (p_heap s) + rem g (p_in s) < fuel ->
+  exists s', prim_loop fuel g (length (all_nodes g)) s = Some s' /\ PI g start s' /\
+             (p_heap s' = [] \/ length (all_nodes g) <= length (p_in s')).
+Proof.
+  intros g start Hnd fuel s HP Hm.
+  destruct (prim_loop_ok_gen g start (fun _ => True) Hnd (fun _ _ _ _ _ _ _ => I) (fun _ _ _ _ _ _ _ => I)
+              fuel s HP I Hm) as (s' & H1 & H2 & _ & H3).
+  exists s'. split; [exact H1|]. split; [exact H2|exact H3].
 Qed.
 
 (* ---------------------------------------------------------------- result *)
